@@ -35,5 +35,5 @@ Twin(h) == IF h = <<>> THEN <<>> ELSE (IF IsFail(Head(h)) THEN <<>> ELSE <<Head(
 
 RECURSIVE Hists(_)
 Hists(n) == IF n = 0 THEN {<<>>} ELSE {Append(h, c) : h \in Hists(n - 1), c \in 1..(NGood + NFail)}
-AllHists == {h \in UNION {Hists(n) : n \in 0..MaxLen} : NFailsIn(h) >= MinFail}
+AllHists_(z) == {h \in UNION {Hists(n) : n \in 0..MaxLen} : NFailsIn(h) >= MinFail}
 =============================================================================
